@@ -520,6 +520,16 @@ def run_case(cid, rng, workdir):
             res["nontrivial"] = True
             w = {"program": prog, "input": idx, "crash_point": list(pt[:4]), "stage": fired["stage"], "phase": fired["phase"],
                  "before": {k: v[2:] for k, v in before.items()}, "after": {k: v[2:] for k, v in after.items()}}
+            if raised is None and prog != "gen_seq":
+                # the injected exception did not reach the caller: the program reports success, so the complete file has
+                # to be in place (second sentence of the statement)
+                bump(res, "faults_swallowed_by_the_program")
+                ok = fname in after and open(os.path.join(d, fname), "rb").read().split(b"\n", 1)[-1] == ref_bytes.split(b"\n", 1)[-1]
+                if not ok:
+                    violation(res, "%s:returns-normally-without-complete-output" % prog, "fault at %s (stage %s) was swallowed: the "
+                              "call returned normally but %s is %s" % (pt[:4], fired["stage"], fname,
+                                                                        "missing" if fname not in after else "not the complete output"), w)
+                continue
             if fired["phase"] == "before" and later is not None and later != before:
                 changed = sorted(set(later) ^ set(before)) + [k for k in later if k in before and later[k] != before[k]]
                 violation(res, "%s:output-of-failed-run-appears-at-next-flush" % prog,
